@@ -96,7 +96,7 @@ def run(ctx):
     if len(obs) != len(cases):
         raise ToolError("classification: %d observations for %d cases" % (len(obs), len(cases)))
     for c, o in zip(cases, obs):
-        ctx.count(case_key=["cls", c["fam"], c["dev"], c["subnet"]], nontrivial=(c["fam"] == "v6" and c["dev"] == 0) or c["kind"] != "ip")
+        ctx.count(case_key=["cls", c["fam"], c["dev"], c["subnet"]], nontrivial=c["fam"] != "v4")
         if o["kind"] != c["kind"] or not o["carried_ok"]:
             ctx.report({"kind": "classification", "fam": c["fam"], "dev": c["dev"], "subnet": c["subnet"], "expected": c["kind"],
                         "got": o["kind"] if o["kind"] != c["kind"] else "carried-address-differs"},
